@@ -81,7 +81,11 @@ theorem predict_step_restores (p : Profile) (x sum : Int) (shift : Nat) (r : Int
     subst h
     simp only [predictStep, decPredictStep32, if_true, bind, Except.bind, pure, Except.pure, addS,
       shrX_ok p 64 _ _ shift hs]
-    rw [resS_eq p 32 _ _ x (by omega) hx]
+    -- the code either adds with overflow checks (exact because the sum fits) or wraps (a no-op here)
+    first
+      | rw [resS_eq p 32 _ _ x (by omega) hx]
+      | (have e : x - castS 32 (sum / 2 ^ shift) + castS 32 (sum / 2 ^ shift) = x := by omega
+         rw [e, wrapS32_of_fits _ hx])
   · simp at h
 
 /-- **predict_restore**: for *every* coefficient list and shift (whatever the floating-point LPC
